@@ -3,6 +3,7 @@
 //! Everything goes through the little-endian word view (`to_words` / `from_words`), which is the
 //! representation the crate itself defines the value by; 64-bit limbs are assumed (checked in
 //! `main`).
+#![allow(dead_code)]
 
 use crypto_bigint::{BoxedUint, Int, Limb, Uint, Word};
 use num_bigint::{BigInt, BigUint, Sign};
